@@ -275,6 +275,22 @@ def cutAfterDb : List Eff → Nat → List Eff × Option Eff
       (if k = 0 then ([], some e) else let r := cutAfterDb es k; (e :: r.1, r.2))
     else let r := cutAfterDb es (k + 1); (e :: r.1, r.2)
 
+/-- a trace cut by a kill at the ENTRY of the j-th `Database` mutation (`j ≥ 1`): everything before it, in full (the
+point "between the cache update of one effect and the database update of the next"; were the code to write the
+cache first, this is where cache and files would part) -/
+def cutBeforeDb : List Eff → Nat → List Eff
+  | [], _ => []
+  | _, 0 => []
+  | e :: es, j + 1 =>
+    if e.isDb then (if j = 0 then [] else e :: cutBeforeDb es j) else e :: cutBeforeDb es (j + 1)
+
+/-- crash points are numbered: `k < killBase`: right after the k-th `Database` mutation returns (`cutAfterDb`);
+`killBase + j`: at the entry of the j-th (`cutBeforeDb`) -/
+def killBase : Nat := 100
+
+def cutAt (tr : List Eff) (k : Nat) : List Eff × Option Eff :=
+  if k < killBase then cutAfterDb tr k else (cutBeforeDb tr (k - killBase), none)
+
 /-- replay of a trace, possibly cut -/
 def replay (fixed : Bool) (u : User) (held : Nat → List Flav) (wm : World × Spec) (es : List Eff)
     (last : Option Eff) : World :=
@@ -321,8 +337,8 @@ def stepG (fixed : Bool) (w : World) : WCmd → StepResult
     let (out, p) := run w.nst c ⟨w1.db, m, w1.dirs, [], w1.extras, w.tfiles⟩
     let cut : List Eff × Option Eff := match crash with
       | none => (p.tr, none)
-      | some k => cutAfterDb p.tr k
-    ⟨out, cut.2.isSome, fl, m, cut.1 ++ cut.2.toList, wouldDo w.nst c ⟨w1.db, m, w1.dirs, [], w1.extras, w.tfiles⟩,
+      | some k => cutAt p.tr k
+    ⟨out, cut.2.isSome || decide (cut.1.length < p.tr.length), fl, m, cut.1 ++ cut.2.toList, wouldDo w.nst c ⟨w1.db, m, w1.dirs, [], w1.extras, w.tfiles⟩,
      replay fixed u (heldOf fl) (w1, m) cut.1 cut.2⟩
 
 def step (w : World) (c : WCmd) : World := (stepG true w c).w
